@@ -2,6 +2,7 @@ package interp
 
 import (
 	"math"
+	"strconv"
 
 	"symgo/smt"
 )
@@ -53,4 +54,22 @@ func init() {
 func init() {
 	// environment stub: a fixed working directory
 	reg("os.Getwd", func(fr *frame, a []value) value { return tuple{"/work", iface{}} })
+}
+
+func init() {
+	// printing a number: a symbolic operand that is an exact small integer (known range of at
+	// most 33 values) is concretised by forking on its value; anything else is unsupported
+	reg("strconv.FormatFloat", func(fr *frame, a []value) value {
+		f := fr.i.concretizeSmallFloat(a[0], "strconv.FormatFloat")
+		return strconv.FormatFloat(f, a[1].(uint8), int(asInt64(a[2])), int(asInt64(a[3])))
+	})
+	reg("strconv.AppendFloat", func(fr *frame, a []value) value {
+		f := fr.i.concretizeSmallFloat(a[1], "strconv.AppendFloat")
+		s := strconv.FormatFloat(f, a[2].(uint8), int(asInt64(a[3])), int(asInt64(a[4])))
+		out := append([]value(nil), a[0].([]value)...)
+		for k := 0; k < len(s); k++ {
+			out = append(out, s[k])
+		}
+		return out
+	})
 }
